@@ -13,10 +13,11 @@ from ..runner import ok, fail, discard, HarnessError
 PROP = 'C17'
 RULE = ('case = (half bit period n => 2n system clocks per bit, byte sequence, per-byte idle gap before it is offered, '
         'consumer ready on/off pattern with stalls of at most 3 bit periods). Non-trivial iff >= 3 bytes with at least '
-        'one back-to-back pair (gap 0) and one gap that is not a multiple of the bit period. Distinct by JSON hash.')
+        'one back-to-back pair (gap 0) and one gap that is not a multiple of the bit period. Stratum standard_baud_rates: the '
+        'divider ratios of real boards (200, 434, 868, 5208 clocks per bit). Distinct by JSON hash.')
 ASSUMPTIONS = [
     'the clock divider realises 2*floor(r/2) system clocks per bit for a requested ratio r; the software receiver samples at that realised period',
-    'the link has no back-pressure: consumer stalls are kept shorter than half a frame (longer stalls must lose data by design)',
+    'the link has no back-pressure: a received byte is available from its stop bit until the stop bit of the next byte (10 bit periods later when back to back); consumer stalls are sized so that the hand-over completes within that time in the worst phase alignment (stratum links: at most 3 bit periods; stratum long_consumer_stalls: up to 10 bit periods minus 8 clocks, with the consumer ready for at least 2 consecutive clocks)',
     'liveness is bounded: every accepted byte must be delivered within 3 frame times after the last acceptance (deterministic cycle budget)',
 ]
 
@@ -74,12 +75,55 @@ def run_case(case):
     idle = gaps[0] if gaps else 0
     last_accept = 0
     t = 0
-    period = max(1, on + off)
+    react = on == 'react'          # reactive consumer: ready by default, not-ready for `off` clocks once valid is seen
+    line = on == 'line'            # reactive consumer timed on the line: once valid is seen it stays not-ready until `off`
+    #                                clocks after the falling edge that starts the next frame (the received byte is
+    #                                available until that frame's stop bit is sampled, 9.5 bit periods after the edge);
+    #                                without a next frame it gives up waiting after 12 bit periods
+    period = 1 if (react or line) else max(1, on + off)
+    stall_left = 0
+    handled = False
+    waiting = False
+    wait_since = 0
+    frame_t0 = None               # start edge of the frame currently on the line (tracked by the harness)
+    prev_tx = 1
     while t < budget:
         offering = pos < len(data) and idle == 0
         s_valid.put(1 if offering else 0)
         s_v.put(data[pos] if offering else 0)
-        r = 1 if (t % period) < on else 0
+        cur_tx = tx.get()
+        if frame_t0 is not None and 2 * (t - frame_t0) >= 19 * P:
+            frame_t0 = None                      # past the stop-bit sampling point
+        if frame_t0 is None and prev_tx == 1 and cur_tx == 0:
+            frame_t0 = t
+        prev_tx = cur_tx
+        if line:
+            if d_valid.get() == 1 and not waiting and not handled:
+                waiting = True
+                handled = True
+                wait_since = t
+                wait_frame = None
+            if waiting:
+                if wait_frame is None and frame_t0 is not None and frame_t0 >= wait_since - P // 2:
+                    wait_frame = frame_t0
+                if (wait_frame is not None and t >= wait_frame + off) or t - wait_since > 12 * P:
+                    waiting = False
+            r = 0 if waiting else 1
+            if r == 1 and d_valid.get() == 1:
+                handled = False
+        elif react:
+            if d_valid.get() == 1 and not handled:
+                handled = True
+                stall_left = off
+            if stall_left > 0:
+                r = 0
+                stall_left -= 1
+            else:
+                r = 1
+                if d_valid.get() == 1:
+                    handled = False
+        else:
+            r = 1 if (t % period) < on else 0
         d_ready.put(r)
         sim.propagateAll()
         took = offering and s_ready.get() == 1
@@ -133,6 +177,29 @@ def case_strategy(max_n, max_bytes):
     }))
 
 
+def long_stall_strategy(max_n):
+    """back-to-back bytes and a consumer that stays not-ready for most of a frame: byte k is available from its stop bit
+    until the stop bit of byte k+1 (10 bit periods later), and the periodic ready pattern is sized so that the hand-over
+    completes within that time in the worst phase alignment (on >= 2: first ready clock at most off+1 after the stop
+    bit, delivery one clock later, at most once deferred to the next clock) - the last bit period before the deadline
+    is exercised"""
+    byte = st.one_of(st.sampled_from([0x00, 0xFF, 0x55, 0xAA, 0xA5, 0x3C]), st.integers(0, 255))
+    return st.integers(4, max_n).flatmap(lambda n: st.fixed_dictionaries({
+        'n': st.just(n),
+        'odd': st.integers(0, 1),
+        'bytes': st.lists(byte, min_size=3, max_size=5),
+        'gaps': st.lists(st.sampled_from([0, 0, 1, 2]), min_size=1, max_size=2),
+        'ready': st.one_of(st.tuples(st.integers(2, 6), st.integers(16 * n, 20 * n - 8)).map(list),
+                           # reactive consumer: valid is visible 2 clocks after the stop bit, the hand-over happens
+                           # `stall` clocks later and must precede the next stop bit (20n clocks after the previous one)
+                           st.one_of(st.integers(0, 20 * n - 6), st.integers(18 * n - 4, 20 * n - 6)).map(lambda k: ['react', k]),
+                           # timed on the line: hand-over k clocks after the next start edge, before its stop bit is sampled
+                           # (19n clocks after the edge); the last bit period before that is over-represented
+                           st.one_of(st.integers(0, 19 * n - 5), st.integers(17 * n, 19 * n - 5)).map(lambda k: ['line', k]),
+                           st.one_of(st.integers(0, 19 * n - 5), st.integers(17 * n, 19 * n - 5)).map(lambda k: ['line', k])),
+    }))
+
+
 def shrink_candidates(case):
     b = case['bytes']
     for i in range(len(b)):
@@ -162,12 +229,30 @@ def all_bytes_task(task):
             'samples': [{'case': case}]}
 
 
+def standard_rate_task(task):
+    """divider ratios of real boards: 50 MHz / 115200 baud = 434 clocks per bit, 100 MHz / 115200 = 868, 50 MHz / 9600 = 5208"""
+    case = {'n': task['n'], 'odd': 0, 'bytes': task['bytes'], 'gaps': task.get('gaps', [0]), 'ready': [1, 0]}
+    r = run_case(case)
+    fails = []
+    if r['fail']:
+        fails.append({'sig': r['fail']['sig'], 'msg': r['fail']['msg'], 'case': case})
+    return {'evals': 1, 'nt': 1, 'cls': {'clocks_per_bit={}'.format(2 * task['n']): 1}, 'fails': fails, 'samples': [{'case': case}]}
+
+
 def strata(tier):
     if tier == 'quick':
         return [{'name': 'links', 'kind': 'hyp', 'examples': 96, 'strategy': lambda: case_strategy(10, 6), 'run_case': run_case},
+                {'name': 'long_consumer_stalls', 'kind': 'hyp', 'examples': 96, 'strategy': lambda: long_stall_strategy(8), 'run_case': run_case},
+                {'name': 'standard_baud_rates', 'kind': 'enum', 'exhaustive': False, 'run_task': standard_rate_task,
+                 'tasks': [{'n': 217, 'bytes': [0xA5, 0x3C, 0x00, 0xFF]}, {'n': 217, 'bytes': [0x55], 'gaps': [700]}, {'n': 434, 'bytes': [0x81, 0x7E]},
+                           {'n': 100, 'bytes': [0xA5, 0x3C, 0x00, 0xFF]}, {'n': 2604, 'bytes': [0xC3]}]},
                 {'name': 'all_byte_values', 'kind': 'enum', 'exhaustive': False, 'run_task': all_bytes_task,
                  'tasks': [{'n': 2}, {'n': 3}]}]
     return [{'name': 'links', 'kind': 'hyp', 'examples': 2400, 'strategy': lambda: case_strategy(20, 8), 'run_case': run_case},
+            {'name': 'long_consumer_stalls', 'kind': 'hyp', 'examples': 2400, 'strategy': lambda: long_stall_strategy(16), 'run_case': run_case},
             {'name': 'wide_ratio', 'kind': 'hyp', 'examples': 32, 'strategy': lambda: case_strategy(217, 3).filter(lambda c: c['n'] > 40), 'run_case': run_case},
+            {'name': 'standard_baud_rates', 'kind': 'enum', 'exhaustive': False, 'run_task': standard_rate_task,
+             'tasks': [{'n': n, 'bytes': b, 'gaps': g} for n in (100, 217, 434, 1302, 2604) for b in ([0xA5, 0x3C, 0x00, 0xFF], [0x55], [0x00, 0xFF])
+                       for g in ([0], [n + 7])]},
             {'name': 'all_byte_values', 'kind': 'enum', 'exhaustive': False, 'run_task': all_bytes_task,
              'tasks': [{'n': k} for k in (2, 3, 4, 5, 8, 13)]}]
